@@ -436,6 +436,19 @@ def _inline_site(prog: Program, f: FunctionInfo, body, caller: FunctionInfo, cal
             if isinstance(v, ast.Tuple) and len(stmt.targets) == 1 and isinstance(stmt.targets[0], ast.Tuple) and len(v.elts) == len(stmt.targets[0].elts) \
                     and all(isinstance(a_, ast.Name) and isinstance(b_, ast.Name) and a_.id == b_.id for a_, b_ in zip(v.elts, stmt.targets[0].elts)):
                 return []  # a, b = (a, b)
+            if isinstance(v, ast.Tuple) and len(stmt.targets) == 1 and isinstance(stmt.targets[0], ast.Tuple) and len(v.elts) == len(stmt.targets[0].elts):
+                # drop the identity components of a tuple return (``x, y = (x1, y)`` -> ``x = x1``) when that cannot change
+                # the result: no remaining target is read by a remaining value
+                pairs = [(t_, v_) for t_, v_ in zip(stmt.targets[0].elts, v.elts) if not (isinstance(t_, ast.Name) and isinstance(v_, ast.Name) and t_.id == v_.id)]
+                if len(pairs) < len(v.elts) and all(isinstance(t_, ast.Name) for t_, _v in pairs):
+                    tnames_ = {t_.id for t_, _v in pairs}
+                    if not any(isinstance(n_, ast.Name) and n_.id in tnames_ for _t, v_ in pairs for n_ in ast.walk(v_)):
+                        outl = []
+                        for t_, v_ in pairs:
+                            a1 = ast.Assign(targets=[copy.deepcopy(t_)], value=v_)
+                            ast.copy_location(a1, stmt)
+                            outl.append(a1)
+                        return outl
             a_ = ast.Assign(targets=[copy.deepcopy(t) for t in stmt.targets], value=v if v is not None else ast.Constant(value=None))
             ast.copy_location(a_, stmt)
             return [a_]
